@@ -166,6 +166,8 @@ def run(facts, rep, ctx):
         rep.inconc(R4, "label record: writer pushes %s, reader interprets %s (two words expected on each side)" % (w["label_push_order"], r["label_read_order"]))
     else:
         rep.violation(R4, rd.name, "label-record", "writer pushes %s, reader interprets %s" % (w["label_push_order"], r["label_read_order"]), "%s:%s" % (rd.file, rd.line))
+    for bad_acc in sorted(set(r.get("label_addr_misuse", []))):
+        rep.violation(R4, rd.name, "label-at-end:" + bad_acc, "the parser passes a label's address to BinArchive::%s, which rejects address == size: a label at the end of the data cannot be re-parsed (labels may sit at any address <= size)" % bad_acc, "%s:%s" % (rd.file, rd.line))
     if r["classify"] == "gt-data-size":
         rep.ok(R4, {"classification": "value > data size => string"})
     elif r["classify"] is None:
@@ -505,8 +507,12 @@ def reader_model(facts, rep, R2, rd):
                                     if t2["k"] == "call":
                                         nm2 = (callee_names(t2)[1] or "")
                                         if nm2.endswith("::write_label") or nm2.endswith("::write_labels"):
-                                            if any(x == ("local", l, nv.local_name(l)) for x in walk(nv.term_of_operand(t2["args"][1]))):
+                                            if any(x == ("local", l, nv.local_name(l)) for x in walk(deep(nv, nv.term_of_operand(t2["args"][1]), stop=(l,)))):
                                                 role = "address"
+                                        elif nm2.startswith("mila::bin_archive::BinArchive::") and len(t2["args"]) > 1 and \
+                                                any(x == ("local", l, nv.local_name(l)) for x in walk(deep(nv, nv.term_of_operand(t2["args"][1]), stop=(l,)))):
+                                            # the label's address handed to an accessor that rejects address == size
+                                            m.setdefault("label_addr_misuse", []).append(nm2.rsplit("::", 1)[-1])
                                 # ... or directly in the position the name is read at
                                 for bb2 in lp["blocks"]:
                                     t2 = nv.blocks[bb2]["term"]
